@@ -30,11 +30,11 @@ pub fn battery<Ty: EdgeType, Ix: IndexType>(g: &Gr<Ty, Ix>) -> Vec<String> {
     v.push(line("exto", &g.externals(Direction::Outgoing).map(|x| x.index() as i64).collect::<Vec<_>>()));
     v.push(line("exti", &g.externals(Direction::Incoming).map(|x| x.index() as i64).collect::<Vec<_>>()));
     for a in 0..g.node_count() as i64 {
-        v.push(line("nbo", &with(a, g.neighbors(ni(a)).map(|x| x.index() as i64).collect())));
-        v.push(line("nbi", &with(a, g.neighbors_directed(ni(a), Direction::Incoming).map(|x| x.index() as i64).collect())));
-        v.push(line("nbu", &with(a, g.neighbors_undirected(ni(a)).map(|x| x.index() as i64).collect())));
-        v.push(line("edo", &with(a, eref_flat(g.edges(ni(a))))));
-        v.push(line("edi", &with(a, eref_flat(g.edges_directed(ni(a), Direction::Incoming)))));
+        v.push(line("nbo", &with(a, g.neighbors(ni(a)).take(4000).map(|x| x.index() as i64).collect())));
+        v.push(line("nbi", &with(a, g.neighbors_directed(ni(a), Direction::Incoming).take(4000).map(|x| x.index() as i64).collect())));
+        v.push(line("nbu", &with(a, g.neighbors_undirected(ni(a)).take(4000).map(|x| x.index() as i64).collect())));
+        v.push(line("edo", &with(a, eref_flat(g.edges(ni(a)).take(4000)))));
+        v.push(line("edi", &with(a, eref_flat(g.edges_directed(ni(a), Direction::Incoming).take(4000)))));
     }
     // whole-graph iteration must agree with the indexed accessors
     let er = eref_flat(g.edge_references());
